@@ -58,7 +58,7 @@ void harness_null(void)
 }
 
 /* Length handling beyond 16 bits: one call over BIG bytes equals two calls (BIG - CUTB, CUTB bytes) and the bitwise
- * reference of a short tail - on a concrete data pattern and start value, so that CBMC's symbolic execution
+ * reference of a short tail - on concrete data (all-zero bytes) and a non-zero start value, so that CBMC's symbolic execution
  * folds every step (this is a concrete path through the real routine, not a quantified claim; it exists because
  * the per-call length is a size_t and the quantified harnesses only reach 8 bytes). */
 #ifndef BIG
@@ -71,8 +71,8 @@ static uint8_t bigbuf[BIG];
 void harness_big(void)
 {
 	uint16_t whole = 0x1234, parts = 0x1234;
-	unsigned i;
-	for (i = 0; i < BIG; ++i) bigbuf[i] = (uint8_t) (i * 7 + 3);
+	/* the buffer stays all-zero (never written), so every read folds to a constant; the state still evolves
+	 * through the table from the non-zero start value */
 	lha_crc16_buf(&whole, bigbuf, BIG);
 	lha_crc16_buf(&parts, bigbuf, BIG - CUTB);
 	lha_crc16_buf(&parts, bigbuf + (BIG - CUTB), CUTB);
